@@ -238,6 +238,47 @@ def r15_2b(ctx, R):
         if b.path.endswith("::try_push_with"):
             # the push primitive itself: its only effect besides the insert is MARK on the success path (C01 R1.5)
             bad = []
+        if bad:
+            # effects in the forwarder's own body are still refusal-free if every REFUSING return path (returns `Err`) carries
+            # none, or carries exactly a step of a wrapping counter followed by its inverse (reserve, then hand back)
+            eff = {}
+            for (bb, i, fld, val, root, pe) in self_field_stores(b, fl):
+                eff.setdefault(bb, []).append(("store", fld, None))
+            for bb, t, fn in b.calls():
+                if fn and not b.is_cleanup(bb) and re.search(r"core::ops::(AddAssign|SubAssign|BitXorAssign|MulAssign)", fn["def"]):
+                    a0 = strip_refs(fl.operand_expr(t["args"][0]))
+                    if a0[0] == "proj" and strip_refs(a0[1])[0] == "param":
+                        wr = "Wrapping<" in (fn.get("def_str") or fn.get("res") or "")
+                        kind = "add" if "AddAssign" in fn["def"] else ("sub" if "SubAssign" in fn["def"] else "other")
+                        eff.setdefault(bb, []).append((kind if wr else "other", a0[2][-1], expr_str(fl.operand_expr(t["args"][1]))))
+            from lib_flow import sensitive_paths, path_const_feasible, PathEval
+            refusing_dirty = None
+            nref = 0
+            try:
+                for kind_, path, know in sensitive_paths(b, fl, 2):
+                    if kind_ != "return":
+                        continue
+                    r = PathEval(b, path).local_expr(0)
+                    if not (r[0] == "agg" and r[1].endswith("Result::Err")):
+                        continue
+                    if not path_const_feasible(b, path):
+                        continue
+                    nref += 1
+                    seq = [e for x in path for e in eff.get(x, [])]
+                    # cancel adjacent inverse pairs on the same field with the same operand
+                    st = []
+                    for e in seq:
+                        if st and e[0] in ("add", "sub") and st[-1][0] in ("add", "sub") and st[-1][0] != e[0] and st[-1][1:] == e[1:]:
+                            st.pop()
+                        else:
+                            st.append(e)
+                    if st:
+                        refusing_dirty = [b.loc(x) for x in path if x in eff]
+                        break
+            except RuntimeError:
+                refusing_dirty = ["path enumeration gave up"]
+            if refusing_dirty is None and nref > 0:
+                bad = []
         ctx.ob("R15.2", b, "forwarder-has-no-own-side-effects", not bad, d_loc(b), "side effects at %s" % bad)
     ctx.floor("R15.2", "try-push-forwarders", n, 4)
 
